@@ -31,6 +31,7 @@ var cliLayouts = [][]MArch{
 }
 
 type cliDriver struct {
+	srv  *serverProc
 	prop string
 	w    *bufio.Writer
 	root string
@@ -53,7 +54,19 @@ func (d *cliDriver) emit(ev map[string]interface{}) {
 	d.n++
 }
 
+// a pre-state that holds a value the model cannot represent makes the whole case unjudgeable
+// (it can only come from a changed library: the case is then another property's business)
+var preStateUnrep bool
+
 func snapshot(path string, cfg MCfg, mp Mapping) sfile {
+	saved := unrepSeen
+	unrepSeen = false
+	defer func() {
+		if unrepSeen {
+			preStateUnrep = true
+		}
+		unrepSeen = saved
+	}()
 	buf, err := ioutil.ReadFile(path)
 	if err != nil {
 		return sfile{Absent: true}
@@ -124,6 +137,7 @@ func createFile(path string, cfg MCfg) {
 }
 
 func (d *cliDriver) oneCase(seed int64, id int) {
+	preStateUnrep = false
 	rnd := rand.New(rand.NewSource(seed*7919 + int64(id)))
 	lay := cliLayouts[rnd.Intn(len(cliLayouts))]
 	method := drvMethods[rnd.Intn(len(drvMethods))]
@@ -162,7 +176,7 @@ func (d *cliDriver) oneCase(seed int64, id int) {
 	nitems := 1 + rnd.Intn(3)
 	delta := lay[0].Step * int64(1+rnd.Intn(3)) // the command's clock advances by delta between files (glob copy)
 	popNow := now
-	if d.prop == "C08" && nitems > 1 {
+	if (d.prop == "C08" || d.prop == "C11") && nitems > 1 {
 		popNow = now + int64(nitems)*delta
 	}
 	nsrc := 1 + rnd.Intn(3)
@@ -283,6 +297,9 @@ func (d *cliDriver) oneCase(seed int64, id int) {
 	cn := rnd.Intn(2) == 0
 	base := map[string]interface{}{"now": now, "sel": sel, "f": f, "u": u, "B": mp.B, "scale": mp.Scale, "case": id}
 	line := func(ev string, extra map[string]interface{}) {
+		if preStateUnrep {
+			return
+		}
 		m := map[string]interface{}{"ev": ev}
 		for k2, v := range base {
 			m[k2] = v
@@ -411,12 +428,46 @@ func (d *cliDriver) oneCase(seed int64, id int) {
 			panic(err)
 		}
 		line("sum", map[string]interface{}{"files": filesOf(it), "k": res.Class, "msg": res.Msg, "recs": recsJSON(got, mp)})
+		// an item several directories deep, reached through an item glob (item names use dots for directory separators)
+		nested := filepath.Join(e.srcBase, "dc1", "web", "cpu")
+		os.MkdirAll(nested, 0755)
+		for _, p := range it.srcs {
+			b, _ := ioutil.ReadFile(p)
+			ioutil.WriteFile(filepath.Join(nested, filepath.Base(p)), b, 0644)
+		}
+		c2 := &cmd.SumCommand{SrcBase: e.srcBase, ItemPattern: []string{"dc1/*/cpu", "dc1/web/cpu", "dc?/w*/c[op]u"}[rnd.Intn(3)], SrcPattern: "s*.wsp", From: from, Until: until, ArchiveID: arch, ShowHeader: false}
+		res = e.runCmd(c2, &c2.TextOut)
+		got, _, err = parsePointLines(res.Text, mp)
+		if err != nil {
+			panic(err)
+		}
+		line("sum", map[string]interface{}{"files": filesOf(it), "k": res.Class, "msg": res.Msg, "recs": recsJSON(got, mp), "item": "nested"})
+		// the same sum through a server
+		if d.srv == nil || !d.srv.alive() {
+			d.srv.stop()
+			d.srv, err = startServer(d.root)
+			if err != nil {
+				panic(err)
+			}
+		}
+		relBase, _ := filepath.Rel(d.root, e.srcBase)
+		c3 := &cmd.SumCommand{SrcBase: d.srv.url, ItemPattern: filepath.Join(relBase, "item1"), SrcPattern: "s*.wsp", From: from, Until: until, ArchiveID: arch, ShowHeader: false}
+		res = e.runCmd(c3, &c3.TextOut)
+		got, _, err = parsePointLines(res.Text, mp)
+		if err != nil {
+			panic(err)
+		}
+		line("sum", map[string]interface{}{"files": filesOf(it), "k": res.Class, "msg": res.Msg, "recs": recsJSON(got, mp), "via": "http"})
 	case "C11":
 		if glob {
 			// several items: every item is compared; one deviating item makes the run report a difference
 			var its []map[string]interface{}
 			for _, it := range items {
-				its = append(its, map[string]interface{}{"files": filesOf(it), "dst": snapshot(it.dst, it.dcfg, mp)})
+				// what the real sum computes for this item (C11 is relative to it)
+				sc := &cmd.SumCommand{SrcBase: e.srcBase, ItemPattern: it.name, SrcPattern: "s*.wsp", From: from, Until: until, ArchiveID: arch, ShowHeader: false}
+				sres := e.runCmd(sc, &sc.TextOut)
+				sgot, _, _ := parsePointLines(sres.Text, mp)
+				its = append(its, map[string]interface{}{"files": filesOf(it), "dst": snapshot(it.dst, it.dcfg, mp), "sumk": sres.Class, "sumrecs": recsJSON(sgot, mp)})
 			}
 			sd := &cmd.SumDiffCommand{SrcBase: e.srcBase, ItemPattern: "item*", SrcPattern: "s*.wsp", DestBase: e.destBase, DestRelPath: "d.wsp", From: from, Until: until, ArchiveID: arch}
 			res := e.runCmd(sd, &sd.TextOut)
@@ -430,14 +481,37 @@ func (d *cliDriver) oneCase(seed int64, id int) {
 			for i, it := range items {
 				pres[i] = snapshot(it.dst, it.dcfg, mp)
 			}
+			// the wall clock advances from item to item: every item is summed and stored at its own instant
+			u2, until2 := u, until
+			if rnd.Intn(2) == 0 {
+				u2, until2 = 0, 0 // default upper bound: "until now", per item
+			}
+			calls := 0
+			var nows []int64
+			cmd.VerifNow = func() wt.Timestamp {
+				t := now + int64(calls)*delta
+				calls++
+				nows = append(nows, t)
+				return wt.Timestamp(mp.B + t)
+			}
 			c := &cmd.SumCopyCommand{SrcBase: e.srcBase, DestBase: e.destBase, ItemPattern: "item*", SrcPattern: "s*.wsp", DestRelPath: "d.wsp",
-				AggregationMethod: methodOf(cfg.Method), XFilesFactor: xffFloat(cfg.Xff), ArchiveInfoList: archiveInfoList(cfg), From: from, Until: until, ArchiveID: arch}
+				AggregationMethod: methodOf(cfg.Method), XFilesFactor: xffFloat(cfg.Xff), ArchiveInfoList: archiveInfoList(cfg), From: from, Until: until2, ArchiveID: arch}
 			res = e.runCmd(c, &c.TextOut)
-			if res.Class == "ok" {
+			if res.Class == "ok" && len(nows) == len(items) {
 				for i, it := range items {
-					line("sumcopy", map[string]interface{}{"ccfg": cfg, "files": its[i]["files"], "dst": pres[i], "k": res.Class, "msg": res.Msg, "post": postOf(it.dst), "glob": true})
+					ni := nows[i]
+					cmd.VerifNow = func() wt.Timestamp { return wt.Timestamp(mp.B + ni) }
+					sc := &cmd.SumCommand{SrcBase: e.srcBase, ItemPattern: it.name, SrcPattern: "s*.wsp", From: from, Until: until2, ArchiveID: arch, ShowHeader: false}
+					sres := e.runCmd(sc, &sc.TextOut)
+					sgot, _, _ := parsePointLines(sres.Text, mp)
+					e2 := *e
+					e2.now = ni
+					rs, _ := e2.postRecsPath(it.dst, sel, f, u2)
+					line("sumcopy", map[string]interface{}{"ccfg": cfg, "files": its[i]["files"], "dst": pres[i], "k": res.Class, "msg": res.Msg, "post": recsJSON(rs, mp), "glob": true,
+						"now": ni, "u": u2, "sumk": sres.Class, "sumrecs": recsJSON(sgot, mp)})
 				}
 			}
+			cmd.VerifNow = func() wt.Timestamp { return wt.Timestamp(mp.B + now) }
 			break
 		}
 		it := items[0]
@@ -561,6 +635,7 @@ func runDriveCLI(args []string) int {
 	defer f.Close()
 	d := &cliDriver{prop: args[0], w: bufio.NewWriterSize(f, 1<<20), root: scratchDir()}
 	defer os.RemoveAll(d.root)
+	defer func() { d.srv.stop() }()
 	for i := first; i < first+n; i++ {
 		fmt.Fprintf(os.Stderr, "CASE %d\n", i)
 		d.oneCase(seed, i)
